@@ -505,6 +505,7 @@ class StmtMixin:
         w = set(p.written)
         self.last_probe_cells = {}
         self.last_probe_fresh = set()
+        self.last_probe_allrefs = {f: [r for r in refs if r is not None] for f, refs in p.written_cells.items()}
         if only_fields is not None:
             for f, refs in p.written_cells.items():
                 kinds = [("none" if r is None else ("stable" if self.term_is_stable(r) else ("fresh" if self.term_is_fresh(r, st) else "other")))
@@ -593,7 +594,16 @@ class StmtMixin:
                     if f in ("$llen", "$dlen"):
                         st.assume(st.hread(f, r) >= 0)
             else:
+                before = st.harr(f)
                 st.havoc_field(f)
+                if f.startswith("$") and not f.startswith("$static"):
+                    # ghost containers change only through ghost effects, whose target references are explicit
+                    explicit = getattr(self, "last_probe_allrefs", {}).get(f, [])
+                    for g in st.ghost.values():
+                        if g.z is not None and hint_kind(g.th) in ("list", "dict", "set"):
+                            gr = V.r(g.z)
+                            if not any(z3.simplify(x).eq(z3.simplify(gr)) for x in explicit):
+                                st.heap[f] = z3.Store(st.heap[f], gr, z3.Select(before, gr))
         if fresh_fields:
             st.bump_alloc()
         if lp.modifies_fields is None:
